@@ -123,6 +123,9 @@ class BlockPartition(object):
         Formulate the list of orthogonality constraints induced by the partitioning.
 
         """
+        # The partition constraints are regenerated at each call (as class constraints are): start from scratch.
+        self.list_of_constraints = list()
+
         for xi_decomposed in self.blocks_dict.values():
             for xj_decomposed in self.blocks_dict.values():
                 for k in range(self.d):
